@@ -35,6 +35,7 @@ struct Gen<'a> {
     rec: Option<u16>,
     pat4k: bool,
     pat_huge: bool,
+    np_leaf: bool,
     fail_rate: u64,
     flag_density: u64,
 }
@@ -132,10 +133,17 @@ impl<'a> Gen<'a> {
         z << 30
     }
 
-    fn leaf_flags(&mut self, size: Size) -> u64 {
+    /// `allow_np`: the call takes explicit parent flags (or none), so a leaf without PRESENT does
+    /// not produce non-present parent entries (map_to derives the parent flags from the leaf flags)
+    fn leaf_flags(&mut self, size: Size, allow_np: bool) -> u64 {
         let mut f = rand_flags(self.rng, self.flag_density);
         if size == Size::K4 && self.pat4k && self.rng.chance(30) {
             f |= 0x80;
+        }
+        // non-present but non-zero leaf entries (swap / PROT_NONE style metadata)
+        if allow_np && self.np_leaf && self.rng.chance(35) {
+            f &= !1;
+            f |= 1 << 9;
         }
         // PAT_HUGE_PAGE (bit 12) is a leaf flag of 2 MiB / 1 GiB entries only
         if size != Size::K4 && self.pat_huge && self.rng.chance(40) {
@@ -195,9 +203,10 @@ pub fn gen_replay(seed: u64, focus: &str) -> Replay {
     let pcide = rng.chance(30);
     let rnd_pcid = rng.below(4096) as u16;
     let cr3_low: u16 = if pcide { *rng.pick(&[0u16, 1, 5, 0x18, 0x7ff, 0xfff, rnd_pcid]) } else { *rng.pick(&[0u16, 0, 0x8, 0x10, 0x18]) };
+    let zero_data = rng.chance(25);
     let enumerate_faults = focus == "C02" || rng.chance(30);
     let enumerate_ranges = if focus == "C10" { rng.chance(50) } else { rng.chance(4) };
-    let config = Config { view, alloc, garbage_seed: rng.next(), p4_frame, zone_seed: zones.seed, cr3_low, pcide, enumerate_faults, enumerate_ranges, tlb };
+    let config = Config { view, alloc, garbage_seed: rng.next(), p4_frame, zone_seed: zones.seed, cr3_low, pcide, enumerate_faults, enumerate_ranges, tlb, zero_data };
 
     let len = match rng.below(100) {
         0..=49 => rng.range(3, 12),
@@ -233,7 +242,8 @@ pub fn gen_replay(seed: u64, focus: &str) -> Replay {
     let flag_density = *rng.pick(&[10u64, 35, 60]);
     let pat4k = rng.chance(10);
     let pat_huge = rng.chance(8);
-    let mut g = Gen { rng: &mut rng, zones, pages: vec![], frames: vec![], sizes, rec, pat4k, pat_huge, fail_rate, flag_density };
+    let np_leaf = rng.chance(12);
+    let mut g = Gen { rng: &mut rng, zones, pages: vec![], frames: vec![], sizes, rec, pat4k, pat_huge, np_leaf, fail_rate, flag_density };
     let mut steps = Vec::with_capacity(len);
     for _ in 0..len {
         let op = g.rng.weighted(&wts);
@@ -242,7 +252,7 @@ pub fn gen_replay(seed: u64, focus: &str) -> Replay {
             0 | 1 => {
                 let page = g.page(size);
                 let frame = g.frame(size, false);
-                let flags = g.leaf_flags(size);
+                let flags = g.leaf_flags(size, op == 1);
                 let pflags = if op == 1 { Some(format!("{:#x}", g.parent_flags())) } else { None };
                 let fail = g.fail();
                 g.frames.push((frame, size));
@@ -250,7 +260,7 @@ pub fn gen_replay(seed: u64, focus: &str) -> Replay {
             }
             2 => {
                 let frame = g.frame(size, true);
-                let flags = g.leaf_flags(size);
+                let flags = g.leaf_flags(size, false);
                 let fail = g.fail();
                 g.frames.push((frame, size));
                 g.pages.push((frame, size));
@@ -259,7 +269,7 @@ pub fn gen_replay(seed: u64, focus: &str) -> Replay {
             3 => Step::Unmap { size, page: g.page(size) },
             4 => {
                 let page = g.page(size);
-                Step::UpdateFlags { size, page, flags: g.leaf_flags(size) }
+                Step::UpdateFlags { size, page, flags: g.leaf_flags(size, true) }
             }
             5 => {
                 let page = g.page(size);
